@@ -700,7 +700,9 @@ func (g *G1) cond(d int) string {
 	return g.oneOf("true", "false", ". != null", "type == \"number\"", "type == \"array\"", "type == \"object\"", ". == 1", "length > 1", "(type == \"number\") and . > 1", "has(\"a\")?", ". == 2", "type != \"object\"")
 }
 
-var g1UpdateBodies = []string{".", "[., .]", "[.]", "{a: .}", ".[1:]?", "7", ". + 1", "empty", "(1, 2)", "error(\"u\")", "null", ".a?", "[.[]?]", "{b: ., c: .}", "if type == \"number\" then . + 1 else . end", "tostring", "length", "(.. | numbers) |= . + 1", "first(.[]?)", "[]", "{}"}
+var g1UpdateBodies = []string{".", "[., .]", "[.]", "{a: .}", ".[1:]?", "7", ". + 1", "empty", "(1, 2)", "error(\"u\")", "null", ".a?", "[.[]?]", "{b: ., c: .}", "if type == \"number\" then . + 1 else . end", "tostring", "length", "(.. | numbers) |= . + 1", "first(.[]?)", "[]", "{}",
+	// bodies that themselves delete (an update that yields nothing inside an update that may yield nothing)
+	"(.[]? |= empty)", "(.a? |= empty)", "map_values(empty)?", "if type == \"number\" then empty else (.[]? |= empty) end", "del(.[0]?)", "(.[]? | select(. == 1)) |= empty", "select(type != \"number\")"}
 
 // UpdateBodies exposes the update-body pool.
 func UpdateBodies() []string { return g1UpdateBodies }
